@@ -194,6 +194,42 @@ example : negotiateCheck (some ⟨⟨0, [1]⟩⟩) ⟨⟨0, [2]⟩⟩ = .error .
     negotiateCheck (some ⟨⟨0, [1]⟩⟩) ⟨⟨0, [1]⟩⟩ = .ok ⟨⟨0, [1]⟩⟩ ∧ negotiateCheck none ⟨⟨0, [2]⟩⟩ = .ok ⟨⟨0, [2]⟩⟩ := by decide
 
 
+/-- **Dialed peer, for every address family and both entry points of the transport.** The expectation
+`negotiate_connection` is given is the `/p2p` suffix of the address handed to `TcpTransport::open` /
+`TcpTransport::dial`, whatever the host component (`/ip4`, `/ip6`, `/dns`, `/dns4`, `/dns6`) and whatever follows the
+`/p2p`: (1) it is `some d` through both entry points — `open` derives it from the address `dial_peer` returns, which is
+the address it was given; (2) a node that proves any other identity `P ≠ d` gets `PeerIdMismatch`; (3) so a result
+`ok Q` means `d = P = Q`: no opened / established connection for a node that proved a different identity.
+(Without a `/p2p` suffix there is no expectation and every proven identity is accepted: last clause.) -/
+theorem dialed_mismatch_any_address_family (e : Entry) (h : Host) (d : PeerId) (tail : DialedAddr) :
+    entryDialedPeer e (.host h :: .tcp :: .p2p d :: tail) = some d ∧
+    (∀ P, d ≠ P → transportCheck e (.host h :: .tcp :: .p2p d :: tail) P = .error .peerIdMismatch) ∧
+    (∀ P Q, transportCheck e (.host h :: .tcp :: .p2p d :: tail) P = .ok Q → d = P ∧ Q = P) ∧
+    (∀ P, transportCheck e [.host h, .tcp] P = .ok P) := by
+  have hexp : entryDialedPeer e (.host h :: .tcp :: .p2p d :: tail) = some d := by
+    cases e <;> simp [entryDialedPeer, dialPeerAddress, expectedPeer, parseDialed]
+  have hnone : entryDialedPeer e [.host h, .tcp] = none := by
+    cases e <;> simp [entryDialedPeer, dialPeerAddress, expectedPeer, parseDialed]
+  refine ⟨hexp, ?_, ?_, ?_⟩
+  · intro P hne
+    simp [transportCheck, hexp, negotiateCheck, hne]
+  · intro P Q hc
+    rw [transportCheck, hexp] at hc
+    exact dialed_mismatch d P Q hc
+  · intro P
+    simp [transportCheck, hnone, negotiateCheck]
+
+example :
+    transportCheck .open [.host .dns4, .tcp, .p2p ⟨⟨0, [1]⟩⟩] ⟨⟨0, [2]⟩⟩ = .error .peerIdMismatch ∧
+    transportCheck .open [.host .dns, .tcp, .p2p ⟨⟨0, [1]⟩⟩] ⟨⟨0, [2]⟩⟩ = .error .peerIdMismatch ∧
+    transportCheck .open [.host .dns6, .tcp, .p2p ⟨⟨0, [1]⟩⟩] ⟨⟨0, [2]⟩⟩ = .error .peerIdMismatch ∧
+    transportCheck .open [.host .ip4, .tcp, .p2p ⟨⟨0, [1]⟩⟩] ⟨⟨0, [2]⟩⟩ = .error .peerIdMismatch ∧
+    transportCheck .dial [.host .ip6, .tcp, .p2p ⟨⟨0, [1]⟩⟩, .other] ⟨⟨0, [2]⟩⟩ = .error .peerIdMismatch ∧
+    transportCheck .open [.host .dns4, .tcp, .p2p ⟨⟨0, [1]⟩⟩] ⟨⟨0, [1]⟩⟩ = .ok ⟨⟨0, [1]⟩⟩ ∧
+    transportCheck .dial [.host .dns, .tcp] ⟨⟨0, [2]⟩⟩ = .ok ⟨⟨0, [2]⟩⟩ ∧
+    expectedPeer [.host .dns4, .other, .p2p ⟨⟨0, [1]⟩⟩] = none := by decide
+
+
 /-- **Observation: the peer id is the hash of the RECEIVED key bytes.** For an accepted payload whose key bytes `kb`
 decode to `key`: the accepted id is the id of `kb`; it is the reference id (of the canonical re-encoding
 `keyEncoding key`) if `kb` is canonical, and it differs from it for every other inlined encoding of the same key. -/
@@ -421,6 +457,7 @@ end Litep2pVerif.Props.C01
 #print axioms Litep2pVerif.Props.C01.bound_to_session
 #print axioms Litep2pVerif.Props.C01.bound_to_identity
 #print axioms Litep2pVerif.Props.C01.dialed_mismatch
+#print axioms Litep2pVerif.Props.C01.dialed_mismatch_any_address_family
 #print axioms Litep2pVerif.Props.C01.canonical_id
 #print axioms Litep2pVerif.Props.C01.honest_accepts
 #print axioms Litep2pVerif.Props.C01.tamper_no_wrong_identity
